@@ -335,7 +335,18 @@ func (s *bsys) intResult(i int, call *Term, res int) {
 		}
 		return
 	case "builtin.copy":
+		// language spec: copy returns the number of elements copied, min(len(dst), len(src))
 		s.lower(i, 0)
+		if len(call.A) == 2 {
+			d, r := s.node(lenTerm(call.A[0])), s.node(lenTerm(call.A[1]))
+			s.add(i, d, 0)
+			s.add(i, r, 0)
+			if s.proveLE(r, d, 0) {
+				s.add(r, i, 0)
+			} else if s.proveLE(d, r, 0) {
+				s.add(d, i, 0)
+			}
+		}
 		return
 	case "(*math/big.Int).Int64":
 		// crypto/rand.Int godoc: "returns a uniform random value in [0, max)"
@@ -479,6 +490,14 @@ func (s *bsys) lenRules(i int, x *Term, isCap bool) {
 		return
 	}
 	switch x.K {
+	case KParam:
+		// a slice parameter of an unexported helper: every caller's argument length is a precondition
+		{
+			if lb, ok := s.fi.paramLenLower(atoi(x.S)); ok && lb > 0 {
+				s.lower(i, lb)
+				s.axiom["len of parameter "+x.S+" of "+FuncName(s.fi.Fn)+" >= "+itoa(int(lb))+" (proved at every call site of this unexported function)"] = true
+			}
+		}
 	case KConst:
 		if strings.HasPrefix(x.S, "\"") {
 			if v := constant.MakeFromLiteral(x.S, token.STRING, 0); v.Kind() == constant.String {
@@ -733,6 +752,161 @@ func (s *bsys) phiRules(i int, t *Term) {
 		}
 		s.add(i, s.node(r.T), r.C)
 	}
+	// join rule: if every incoming value is <= one of the incoming values T (on its own edge), the phi is <= T
+	// (idx := n; for ... { if c { idx = i; break } } with i < n gives idx <= n); likewise for >=.
+	for _, r := range s.fi.phiJoinRels(phi) {
+		if r.C >= 0 {
+			s.add(i, s.node(r.T), 0)
+		} else {
+			s.add(s.node(r.T), i, 0)
+		}
+	}
+}
+
+// paramLenLower: for an unexported function all of whose uses are static calls, the least length that every call
+// site provably passes for slice parameter k.
+func (fi *FuncInfo) paramLenLower(k int) (int64, bool) {
+	if fi.paramLen == nil {
+		fi.paramLen = map[int]int64{}
+	}
+	if v, ok := fi.paramLen[k]; ok {
+		return v, v > 0
+	}
+	fi.paramLen[k] = 0 // guards recursion
+	fn := fi.Fn
+	if fn.Object() == nil || fn.Object().Exported() || k >= len(fn.Params) {
+		return 0, false
+	}
+	if _, isSlice := fn.Params[k].Type().Underlying().(*types.Slice); !isSlice {
+		return 0, false
+	}
+	// the function must not escape as a value (bound method, func value): then call sites are all its uses
+	if refs := fn.Referrers(); refs != nil && len(*refs) > 0 {
+		return 0, false
+	}
+	sites := fi.P.CallSites(fn)
+	if len(sites) == 0 {
+		return 0, false
+	}
+	best := int64(inf)
+	for _, site := range sites {
+		call, ok := site.(*ssa.Call)
+		if !ok || call.Call.StaticCallee() != fn || k >= len(call.Call.Args) {
+			return 0, false
+		}
+		cfi := fi.P.Info(call.Parent())
+		cs := cfi.sysFor(call)
+		n := cs.node(lenTerm(cfi.Term(call.Call.Args[k])))
+		cs.closeAll()
+		lb := cs.lb(n)
+		if lb <= 0 {
+			return 0, false
+		}
+		if lb < best {
+			best = lb
+		}
+	}
+	fi.paramLen[k] = best
+	return best, true
+}
+
+// phiJoinRels: for a phi that is not a loop-carried variable of its own block, the incoming values T such that
+// every incoming value is <= T (C = +1) or >= T (C = -1) on the edge it arrives over.
+func (fi *FuncInfo) phiJoinRels(phi *ssa.Phi) []phiRel {
+	if fi.phiJoin == nil {
+		fi.phiJoin = map[*ssa.Phi][]phiRel{}
+		fi.phiJoinBusy = map[*ssa.Phi]bool{}
+	}
+	if r, ok := fi.phiJoin[phi]; ok {
+		return r
+	}
+	if fi.phiJoinBusy[phi] {
+		return nil
+	}
+	fi.phiJoinBusy[phi] = true
+	defer delete(fi.phiJoinBusy, phi)
+	var out []phiRel
+	blk := phi.Block()
+	// loop-carried: some incoming value depends on the phi itself
+	self := fi.Term(phi).Key()
+	for _, e := range phi.Edges {
+		dep := false
+		fi.Term(e).Walk(func(x *Term) {
+			if x.Key() == self {
+				dep = true
+			}
+		})
+		if dep {
+			fi.phiJoin[phi] = nil
+			return nil
+		}
+	}
+	// candidates: the incoming values themselves, and the bounds that the facts of some incoming edge compare an
+	// incoming value with (i < len(x) on the edge that leaves a scan loop early)
+	type cand struct {
+		T    *Term
+		self int // index of the edge the candidate is the value of, -1 otherwise
+	}
+	var cands []cand
+	seenC := map[string]bool{}
+	for j, ej := range phi.Edges {
+		T := fi.Term(ej)
+		if _, isConst := T.IsConst(); !isConst && !seenC[T.Key()] {
+			seenC[T.Key()] = true
+			cands = append(cands, cand{T, j})
+		}
+	}
+	for i, ei := range phi.Edges {
+		et := fi.Term(ei)
+		fs := map[string]Fact{}
+		for k, f := range fi.FactsAtBlock(blk.Preds[i]) {
+			fs[k] = f
+		}
+		for _, f := range fi.EdgeFacts(blk.Preds[i], blk) {
+			fs[f.Key()] = f
+		}
+		for _, f := range fs {
+			if f.Neg || f.T.K != KBin || (f.T.S != "<" && f.T.S != "<=") {
+				continue
+			}
+			for k := 0; k < 2; k++ {
+				if f.T.A[k].Key() == et.Key() {
+					o := f.T.A[1-k]
+					if _, isConst := o.IsConst(); !isConst && !seenC[o.Key()] {
+						seenC[o.Key()] = true
+						cands = append(cands, cand{o, -1})
+					}
+				}
+			}
+		}
+	}
+	for _, cd := range cands {
+		T := cd.T
+		if !termStableAt(T, blk) {
+			continue
+		}
+		le, ge := true, true
+		for i, ei := range phi.Edges {
+			if i == cd.self {
+				continue
+			}
+			sys := fi.SysForEdge(blk.Preds[i], blk)
+			et := fi.Term(ei)
+			if !sys.ProveDiffLE(et, T, 0) {
+				le = false
+			}
+			if !sys.ProveDiffLE(T, et, 0) {
+				ge = false
+			}
+		}
+		if le {
+			out = append(out, phiRel{T: T, C: 1})
+		} else if ge {
+			out = append(out, phiRel{T: T, C: -1})
+		}
+	}
+	fi.phiJoin[phi] = out
+	return out
 }
 
 // phiRel is a relational loop invariant phi - T <= C found by candidate
@@ -747,30 +921,90 @@ type phiRel struct {
 // block (dominates it) or is a phi of the block, so the term denotes one
 // value for the whole time control stays in the loop headed by blk.
 func termStableAt(t *Term, blk *ssa.BasicBlock) bool {
+	body := loopBodyOf(blk)
 	ok := true
-	t.Walk(func(x *Term) {
-		if x.Val == nil {
+	var walk func(x *Term)
+	walk = func(x *Term) {
+		if !ok || x == nil {
 			return
 		}
-		in, isInstr := x.Val.(ssa.Instruction)
-		if !isInstr {
-			return
-		}
-		b := in.Block()
-		if b == nil {
-			return
-		}
-		if b == blk {
-			if _, isPhi := in.(*ssa.Phi); !isPhi {
-				ok = false
+		switch x.K {
+		case KLoad, KFA, KIA, KLen, KField:
+			// address computations and loads may be re-executed inside the loop: they denote the same value as long
+			// as what they are computed from is stable and, for a load, no definition that reaches it lies in the loop
+			if x.K == KLoad && x.V != "" && !strings.HasPrefix(x.V, "@") {
+				if fn := blk.Parent(); fn != nil {
+					for _, id := range strings.Split(x.V, ",") {
+						if in := instrByIDIn(fn, id); in != nil && body[in.Block()] {
+							ok = false
+							return
+						}
+					}
+				}
+			}
+			for _, a := range x.A {
+				walk(a)
 			}
 			return
 		}
-		if !b.Dominates(blk) {
-			ok = false
+		if x.Val != nil {
+			if in, isInstr := x.Val.(ssa.Instruction); isInstr {
+				if b := in.Block(); b != nil {
+					if b == blk {
+						if _, isPhi := in.(*ssa.Phi); !isPhi {
+							ok = false
+							return
+						}
+					} else if !b.Dominates(blk) {
+						ok = false
+						return
+					}
+				}
+			}
 		}
-	})
+		for _, a := range x.A {
+			walk(a)
+		}
+	}
+	walk(t)
 	return ok
+}
+
+// loopBodyOf: the blocks of the natural loop(s) headed by blk (empty if blk heads no loop).
+func loopBodyOf(blk *ssa.BasicBlock) map[*ssa.BasicBlock]bool {
+	body := map[*ssa.BasicBlock]bool{}
+	for _, p := range blk.Preds {
+		if !blk.Dominates(p) {
+			continue
+		}
+		body[blk] = true
+		stack := []*ssa.BasicBlock{p}
+		for len(stack) > 0 {
+			x := stack[len(stack)-1]
+			stack = stack[:len(stack)-1]
+			if body[x] {
+				continue
+			}
+			body[x] = true
+			stack = append(stack, x.Preds...)
+		}
+	}
+	return body
+}
+
+// instrByIDIn finds the instruction with id "b<block>i<index>[.<k>]" in fn.
+func instrByIDIn(fn *ssa.Function, id string) ssa.Instruction {
+	if i := strings.Index(id, "."); i >= 0 {
+		id = id[:i]
+	}
+	var bi, ii int
+	if _, err := fmt.Sscanf(id, "b%di%d", &bi, &ii); err != nil {
+		return nil
+	}
+	if bi < 0 || bi >= len(fn.Blocks) || ii < 0 || ii >= len(fn.Blocks[bi].Instrs) {
+		return nil
+	}
+	return fn.Blocks[bi].Instrs[ii]
 }
 
 func (fi *FuncInfo) edgeSystem(phi *ssa.Phi, k int) *bsys {
@@ -1844,6 +2078,19 @@ type Sys struct{ s *bsys }
 // SysFor returns the constraint system (branch facts, structural constraints,
 // loop invariants) for the point of instruction at.
 func (fi *FuncInfo) SysFor(at ssa.Instruction) *Sys { return &Sys{fi.sysFor(at)} }
+
+// SysForEdge returns the constraint system that holds on the control-flow
+// edge from block a to block b (facts of a plus the branch facts of the edge).
+func (fi *FuncInfo) SysForEdge(a, b *ssa.BasicBlock) *Sys {
+	s := newBsys(fi)
+	for _, f := range fi.FactsAtBlock(a).Sorted() {
+		s.addFact(f)
+	}
+	for _, f := range fi.EdgeFacts(a, b) {
+		s.addFact(f)
+	}
+	return &Sys{s}
+}
 
 // ProveGE proves t >= c.
 func (x *Sys) ProveGE(t *Term, c int64) bool { return x.s.proveLE(0, x.s.node(t), -c) }
